@@ -209,11 +209,21 @@ func runCompiled(c *C16Case, rec *bufio.Writer, tmp string, idx int) (res Result
 			fail("save-compiled-helper", err.Error(), "")
 			return
 		}
-		files, _ := filepath.Glob(filepath.Join(dir, "*"))
-		for _, f := range files {
-			if !strings.HasPrefix(filepath.Base(f), name+".") {
+		// other templates saved into the same directory under similar names must not disturb this one
+		for _, sib := range []string{name + ".twig", name + ".compiled", "x" + name, name + "2"} {
+			if sib == helperName {
 				continue
 			}
+			if err := e1.RegisterString(sib, "SIBLING "+sib+"{{ x }}"); err == nil {
+				if err := cl.SaveCompiled(e1, sib); err != nil {
+					fail("save-compiled-sibling", sib+": "+err.Error(), "")
+				}
+			}
+		}
+		// exactly one of the files written holds this template, with its fields intact
+		files, _ := filepath.Glob(filepath.Join(dir, "*"))
+		mine := 0
+		for _, f := range files {
 			raw, err := os.ReadFile(f)
 			if err != nil {
 				fail("read-file", err.Error(), "")
@@ -221,10 +231,18 @@ func runCompiled(c *C16Case, rec *bufio.Writer, tmp string, idx int) (res Result
 			}
 			fb, err := twig.DeserializeCompiledTemplate(raw)
 			if err != nil {
-				fail("file-deserialize", err.Error(), "")
-			} else if fb.Name != name || fb.Source != src {
-				fail("file-fields", fmt.Sprintf("%q len=%d", fb.Name, len(fb.Source)), fmt.Sprintf("%q len=%d", name, len(src)))
+				fail("file-deserialize", filepath.Base(f)+": "+err.Error(), "")
+				continue
 			}
+			if fb.Name == name {
+				mine++
+				if fb.Source != src {
+					fail("file-fields", fmt.Sprintf("%q len=%d", fb.Name, len(fb.Source)), fmt.Sprintf("%q len=%d", name, len(src)))
+				}
+			}
+		}
+		if mine != 1 {
+			fail("file-missing", fmt.Sprintf("%d files hold template %q after the saves", mine, name), "1")
 		}
 		e3 := twig.New()
 		e3.RegisterLoader(twig.NewCompiledLoader(dir))
